@@ -72,8 +72,20 @@ _SINGLE = (
 _MODS = [0x1F3FB, 0x1F3FC, 0x1F3FD, 0x1F3FE, 0x1F3FF, 0xFE0F, 0x200D]
 
 
-def codepoints(r, max_len=4):
+# boundary scalars: every hex-leading digit incl. a-f, private use, plane ends, tags, controls-adjacent
+_EDGE = [0x21, 0x7E, 0xA9, 0xE9, 0xE01, 0xE50A, 0xE000, 0xEFFF, 0xF8FF, 0xFFFD, 0x10000, 0x1F1E6, 0xB0000, 0xC1234, 0xD7FF,
+         0xE0067, 0xE007F, 0xF0000, 0xFFFFD, 0x100000, 0x10FFFD, 0x10FFFF, 0xA0, 0xAD, 0xFEFF, 0x2028, 0x3000]
+
+
+def codepoints(r, max_len=4, edge=0.0):
     u = r.random()
+    if u < edge:
+        first = r.choice(_EDGE) if r.random() < 0.7 else r.randint(0x21, 0x10FFFF)
+        if 0xD800 <= first <= 0xDFFF:
+            first = 0xE000
+        if r.random() < 0.5:
+            return (first,)
+        return (first,) + tuple(c for c in (r.choice(_MODS + _EDGE) for _ in range(r.randint(1, max_len - 1))) if not (0xD800 <= c <= 0xDFFF))
     if u < 0.6:
         return (r.choice(_SINGLE),)
     n = r.randint(2, max_len)
@@ -86,7 +98,10 @@ def codepoints(r, max_len=4):
 
 def file_stem(r, cps, decorate=False):
     style = r.choice(["emoji_u", "emoji_u", "bare", "u", "dash"])
-    hexes = ["%04x" % c for c in cps]
+    fmt = "%04x"
+    if decorate:
+        fmt = r.choice(["%04x", "%04x", "%x", "%04X", "%06x"])  # padded, minimal, upper case, over-padded
+    hexes = [fmt % c for c in cps]
     if style == "emoji_u":
         stem = "emoji_u" + "_".join(hexes)
     elif style == "bare":
@@ -97,21 +112,21 @@ def file_stem(r, cps, decorate=False):
         stem = "-".join(hexes)
     if decorate:
         # a prefix must not contain a hex digit, a suffix must not continue the sequence
-        pre = r.choice(["", "", "my ", "ŝtr, ", "'q' ", "zz\"q\" ", "x#y% ", "łuk: ", "(z) "])
-        suf = r.choice(["", "", " (x)", ", z", " 'q'", ' "q"', " #%", " ü", ": z"])
-        if pre and style == "emoji_u":
-            stem = "u" + "_".join(hexes)  # the emoji_u prefix is only recognised at the start
+        pre = r.choice(["", "", "my ", "ŝtr, ", "'q' ", "zz\"q\" ", "x#y% ", "łuk: ", "(z) ", "[z] ", "z&z; ", "~z+z= ", "{z}z ", "<z>^ ", "z!z@ ", "z? "])
+        suf = r.choice(["", "", " (x)", ", z", " 'q'", ' "q"', " #%", " ü", ": z", " [1]", " [x-z]", "?", " &;", " +=@~", " {z}", " ^<>", "!"])
+        if style == "emoji_u":
+            pre = ""  # the emoji_u prefix is only recognised at the very start of the name
         stem = pre + stem + suf
     return stem
 
 
-def source_set(r, n, decorate=False, dirs=("src",), small=False, max_len=4):
+def source_set(r, n, decorate=False, dirs=("src",), small=False, max_len=4, edge=0.0):
     """n distinct codepoint sequences -> [(relpath, content_ref, cps)]"""
     out, seen_cps, seen_names = [], set(), set()
     guard = 0
     while len(out) < n and guard < 1000:
         guard += 1
-        cps = codepoints(r, max_len)
+        cps = codepoints(r, max_len, edge)
         if cps in seen_cps:
             continue
         stem = file_stem(r, cps, decorate)
